@@ -129,6 +129,8 @@ def install():
         except BaseException as e:
             if type(e).__name__ == "_ReparseException":
                 PROBES["restart_fired"] += 1
+                if PROBES["readChunk"] > 1:
+                    PROBES["restart_after_multi_chunk"] += 1
                 if isinstance(self.rawStream, B):
                     PROBES["restart_served_from_replay_buffer"] += 1
             raise
